@@ -153,4 +153,22 @@ PLAN = {
             {"name": "miri", "flavour": "miri", "shards": 6, "shards_thorough": 48, "miriflags": IGN, "timeout": 1500},
         ],
     },
+    "C16": {
+        "level": "exploration",
+        "rule": "cycles leg: 1-5 push/drain cycles per reservoir over capacities {0,1,2,3,4,7,8,16,64,1024} and push counts "
+                "{0, cap-1, cap, cap+1, random <= 3cap+4} with unique values (+NaN/inf/-0.0): exact checks of yield set, count, "
+                "sample_rate, is_empty and emptiness of the next drain. uniform leg: 14 (capacity, stream length) shapes x 30k (quick) "
+                "independent trials, per-position retention count vs Binomial(T, k/n), fixed |z| > 6.5 threshold. overlap leg: 1-4 "
+                "pushers vs 2-7 drains with capacity >= everything pushed; a third of the trials gate a pusher between choosing its side "
+                "and claiming a slot until a drain completed; every value must be yielded exactly once by a drain overlapping its push or "
+                "the first drain after it. distinct = hash of cycle shapes / (hook interleaving signature, drain sizes).",
+        "assumptions": ["uniformity is a statistical verdict: false-alarm probability < 1e-9 per run (Bonferroni over <= 150 positions)",
+                        "the reservoir's own PRNG is OS-seeded and not controlled by VERIF_SEED"],
+        "legs": [
+            {"name": "cycles", "flavour": "native", "shards": 2, "shards_thorough": 8},
+            {"name": "uniform", "flavour": "native", "shards": 7, "shards_thorough": 14},
+            {"name": "overlap", "flavour": "native", "shards": 4, "shards_thorough": 16},
+            {"name": "miri", "flavour": "miri", "shards": 6, "shards_thorough": 48, "timeout": 1500},
+        ],
+    },
 }
